@@ -51,7 +51,9 @@ fn tally(msgs: &[RMsg]) -> Tally {
     let mut t = Tally::default();
     for m in msgs {
         let b = bucket_of(m);
-        t.ecu.entry(m.ecu.clone().unwrap_or_else(|| "NONE".to_string())).or_insert([0; 8])[b] += 1;
+        t.ecu
+            .entry(m.ecu.clone().unwrap_or_else(|| "NONE".to_string()))
+            .or_insert([0; 8])[b] += 1;
         if let Some(e) = &m.ext {
             t.app.entry(e.apid.clone()).or_insert([0; 8])[b] += 1;
             t.ctx.entry(e.ctid.clone()).or_insert([0; 8])[b] += 1;
@@ -62,10 +64,21 @@ fn tally(msgs: &[RMsg]) -> Tally {
     t
 }
 fn counters(l: &LevelDistribution) -> Counters {
-    [l.non_log, l.log_fatal, l.log_error, l.log_warning, l.log_info, l.log_debug, l.log_verbose, l.log_invalid]
+    [
+        l.non_log,
+        l.log_fatal,
+        l.log_error,
+        l.log_warning,
+        l.log_info,
+        l.log_debug,
+        l.log_verbose,
+        l.log_invalid,
+    ]
 }
 fn to_tally(s: &StatisticInfo) -> Result<Tally, String> {
-    let conv = |v: &Vec<(String, LevelDistribution)>, what: &str| -> Result<BTreeMap<String, Counters>, String> {
+    let conv = |v: &Vec<(String, LevelDistribution)>,
+                what: &str|
+     -> Result<BTreeMap<String, Counters>, String> {
         let mut m = BTreeMap::new();
         for (k, l) in v {
             if m.insert(k.clone(), counters(l)).is_some() {
@@ -74,7 +87,12 @@ fn to_tally(s: &StatisticInfo) -> Result<Tally, String> {
         }
         Ok(m)
     };
-    Ok(Tally { app: conv(&s.app_ids, "app_ids")?, ctx: conv(&s.context_ids, "context_ids")?, ecu: conv(&s.ecu_ids, "ecu_ids")?, non_verbose: s.contained_non_verbose })
+    Ok(Tally {
+        app: conv(&s.app_ids, "app_ids")?,
+        ctx: conv(&s.context_ids, "context_ids")?,
+        ecu: conv(&s.ecu_ids, "ecu_ids")?,
+        non_verbose: s.contained_non_verbose,
+    })
 }
 
 /// what one call of the collector saw, in the harness's terms
@@ -93,7 +111,14 @@ struct Recorder {
 }
 impl StatisticCollector for Recorder {
     fn collect_statistic(&mut self, s: Statistic) -> Result<(), DltParseError> {
-        self.seen.push(Seen { level: s.log_level, storage: s.storage_header, header: s.standard_header, ext: s.extended_header, payload: s.payload.to_vec(), verbose: s.is_verbose });
+        self.seen.push(Seen {
+            level: s.log_level,
+            storage: s.storage_header,
+            header: s.standard_header,
+            ext: s.extended_header,
+            payload: s.payload.to_vec(),
+            verbose: s.is_verbose,
+        });
         Ok(())
     }
 }
@@ -115,13 +140,27 @@ fn stats_of(msgs: &[RMsg], storage: bool) -> Result<StatisticInfo, Violation> {
         collect_statistics(&mut reader, &mut c).map(|_| c.collect())
     })
     .map_err(|p| Violation::from_panic("collect_statistics", &p))?
-    .map_err(|e| viol!("stats:error", "collect_statistics failed on a well-formed stream: {:?}", e))
+    .map_err(|e| {
+        viol!(
+            "stats:error",
+            "collect_statistics failed on a well-formed stream: {:?}",
+            e
+        )
+    })
 }
 
 pub fn check(c: &Case) -> CheckResult {
-    let mut msgs: Vec<RMsg> = c.msgs.iter().filter(|m| m.storage.is_some() == c.storage).cloned().collect();
+    let mut msgs: Vec<RMsg> = c
+        .msgs
+        .iter()
+        .filter(|m| m.storage.is_some() == c.storage)
+        .cloned()
+        .collect();
     if let Some((a, b)) = c.repeat {
-        let (i, j) = ((a as usize * (msgs.len() + 1)) >> 16, (b as usize * (msgs.len() + 1)) >> 16);
+        let (i, j) = (
+            (a as usize * (msgs.len() + 1)) >> 16,
+            (b as usize * (msgs.len() + 1)) >> 16,
+        );
         let seg: Vec<RMsg> = msgs[i.min(j)..i.max(j)].to_vec();
         msgs.extend(seg);
     }
@@ -133,9 +172,20 @@ pub fn check(c: &Case) -> CheckResult {
         collect_statistics(&mut reader, &mut r).map(|_| r)
     })
     .map_err(|p| Violation::from_panic("collect_statistics", &p))?
-    .map_err(|e| viol!("stats:error", "collect_statistics failed on a well-formed stream: {:?}", e))?;
+    .map_err(|e| {
+        viol!(
+            "stats:error",
+            "collect_statistics failed on a well-formed stream: {:?}",
+            e
+        )
+    })?;
     if rec.seen.len() != msgs.len() {
-        return Err(viol!("stats:visit-count", "the collector was called {} times for {} messages", rec.seen.len(), msgs.len()));
+        return Err(viol!(
+            "stats:visit-count",
+            "the collector was called {} times for {} messages",
+            rec.seen.len(),
+            msgs.len()
+        ));
     }
     for (i, (s, m)) in rec.seen.iter().zip(msgs.iter()).enumerate() {
         let cm = to_crate(m);
@@ -164,7 +214,14 @@ pub fn check(c: &Case) -> CheckResult {
             } else {
                 "payload"
             };
-            return Err(viol!(format!("stats:visit:{}", field), "statistic #{} differs in {}: got {} expected {}", i, field, short_dbg(s), short_dbg(&want)));
+            return Err(viol!(
+                format!("stats:visit:{}", field),
+                "statistic #{} differs in {}: got {} expected {}",
+                i,
+                field,
+                short_dbg(s),
+                short_dbg(&want)
+            ));
         }
     }
     // (b) the standard collector equals an independent tally
@@ -181,14 +238,29 @@ pub fn check(c: &Case) -> CheckResult {
         } else {
             "contained_non_verbose"
         };
-        return Err(viol!(format!("stats:tally:{}", field), "statistics differ from the independent tally in {}: got {:?} expected {:?}", field, got, want));
+        return Err(viol!(
+            format!("stats:tally:{}", field),
+            "statistics differ from the independent tally in {}: got {:?} expected {:?}",
+            field,
+            got,
+            want
+        ));
     }
     let total: usize = got.ecu.values().map(|c| c.iter().sum::<usize>()).sum();
     if total != msgs.len() {
-        return Err(viol!("stats:conservation", "ECU totals add up to {} for {} messages", total, msgs.len()));
+        return Err(viol!(
+            "stats:conservation",
+            "ECU totals add up to {} for {} messages",
+            total,
+            msgs.len()
+        ));
     }
     // (c) merging the parts in the generated history gives the statistics of the whole
-    let mut cuts: Vec<usize> = c.splits.iter().map(|f| (*f as usize * (msgs.len() + 1)) >> 16).collect();
+    let mut cuts: Vec<usize> = c
+        .splits
+        .iter()
+        .map(|f| (*f as usize * (msgs.len() + 1)) >> 16)
+        .collect();
     cuts.push(0);
     cuts.push(msgs.len());
     cuts.sort();
@@ -219,7 +291,8 @@ pub fn check(c: &Case) -> CheckResult {
         history.push((recv, donor));
         let d = parts.remove(donor);
         let recv = if donor < recv { recv - 1 } else { recv };
-        guard(|| parts[recv].merge(d)).map_err(|p| Violation::from_panic("StatisticInfo::merge", &p))?;
+        guard(|| parts[recv].merge(d))
+            .map_err(|p| Violation::from_panic("StatisticInfo::merge", &p))?;
     }
     let merged = match parts.pop() {
         Some(p) => p,
@@ -227,9 +300,17 @@ pub fn check(c: &Case) -> CheckResult {
     };
     // merging into an empty StatisticInfo as well
     let mut from_empty = StatisticInfo::new();
-    let merged_t = to_tally(&merged).map_err(|e| viol!("stats:merge:duplicate-id", "{} after merging", e))?;
-    guard(|| from_empty.merge(merged)).map_err(|p| Violation::from_panic("StatisticInfo::merge into empty", &p))?;
-    let from_empty_t = to_tally(&from_empty).map_err(|e| viol!("stats:merge:duplicate-id", "{} after merging into an empty StatisticInfo", e))?;
+    let merged_t =
+        to_tally(&merged).map_err(|e| viol!("stats:merge:duplicate-id", "{} after merging", e))?;
+    guard(|| from_empty.merge(merged))
+        .map_err(|p| Violation::from_panic("StatisticInfo::merge into empty", &p))?;
+    let from_empty_t = to_tally(&from_empty).map_err(|e| {
+        viol!(
+            "stats:merge:duplicate-id",
+            "{} after merging into an empty StatisticInfo",
+            e
+        )
+    })?;
     if merged_t != want || from_empty_t != want {
         return Err(viol!(
             "stats:merge",
@@ -237,7 +318,10 @@ pub fn check(c: &Case) -> CheckResult {
             nparts, cuts, history, if merged_t != want { &merged_t } else { &from_empty_t }, want
         ));
     }
-    let ids: std::collections::BTreeSet<&String> = msgs.iter().filter_map(|m| m.ext.as_ref().map(|e| &e.apid)).collect();
+    let ids: std::collections::BTreeSet<&String> = msgs
+        .iter()
+        .filter_map(|m| m.ext.as_ref().map(|e| &e.apid))
+        .collect();
     Ok(Pass::new(msgs.len() >= 3 && ids.len() >= 2 && nparts >= 2)
         .class_if(nparts >= 2, "parts>=2")
         .class_if(nparts >= 4, "parts>=4")
@@ -261,10 +345,36 @@ pub fn more_logs(mut m: RMsg) -> RMsg {
 
 pub fn strategy() -> impl Strategy<Value = Case> {
     any::<bool>().prop_flat_map(|storage| {
-        let st = if storage { g::StorageMode::Always } else { g::StorageMode::Never };
-        let m = g::message(g::MsgParams { storage: st, large: false, pool_ids: true, ..Default::default() }).prop_map(more_logs);
-        (vec(m, 0..40), vec(prop_oneof![4 => any::<u16>(), 1 => Just(0u16), 1 => Just(u16::MAX)], 0..5), vec(any::<u16>(), 0..6), vec(any::<(u16, u16)>(), 8), prop::option::weighted(0.2, any::<(u16, u16)>()))
-            .prop_map(move |(msgs, splits, order, merges, repeat)| Case { storage, msgs, splits, order, merges, repeat })
+        let st = if storage {
+            g::StorageMode::Always
+        } else {
+            g::StorageMode::Never
+        };
+        let m = g::message(g::MsgParams {
+            storage: st,
+            large: false,
+            pool_ids: true,
+            ..Default::default()
+        })
+        .prop_map(more_logs);
+        (
+            vec(m, 0..40),
+            vec(
+                prop_oneof![4 => any::<u16>(), 1 => Just(0u16), 1 => Just(u16::MAX)],
+                0..5,
+            ),
+            vec(any::<u16>(), 0..6),
+            vec(any::<(u16, u16)>(), 8),
+            prop::option::weighted(0.2, any::<(u16, u16)>()),
+        )
+            .prop_map(move |(msgs, splits, order, merges, repeat)| Case {
+                storage,
+                msgs,
+                splits,
+                order,
+                merges,
+                repeat,
+            })
     })
 }
 
@@ -279,7 +389,13 @@ pub fn run(run: &Run) {
     );
     run.assume("maps are compared as sorted maps (never by iteration order); an id occurring twice in a result vector is a violation");
     run.regressions(&replay);
-    run.random("streams", run.cases(120_000, 1_500_000), 0.3, strategy, check);
+    run.random(
+        "streams",
+        run.cases(120_000, 1_500_000),
+        0.3,
+        strategy,
+        check,
+    );
 }
 
 pub fn replay(_section: &str, case: &Json) -> Option<CheckResult> {
